@@ -293,6 +293,45 @@ def constraint_shapes(seed, quick):
     return m
 
 
+def real_round(chk, tc, quick):
+    """the shipped sample PDUs of the shipped real-world specifications (vf/realpdu.py) are valid messages of implementations in
+    the field: asn_check_constraints must accept them, whatever the error buffer"""
+    from .. import realpdu
+    nm = realpdu.names(quick)
+    blds = realpdu.make_many(tc, nm)
+    for spec, pdu, syn, label, data in realpdu.samples(tc, nm):
+        b = blds[spec]
+        if b.exe is None:
+            chk.inconcl("shipped specification %s not built (%s)" % (spec, b.error[0]))
+            continue
+        r = drv.run_cases(b.exe, [drv.Case(1, ["dec s=0 t=%s syn=%s in=%s" % (pdu, syn, drv.hx(data)), "chk s=0 eb=128", "chk s=0 eb=0", "chk s=0 eb=1",
+                                              "free s=0"])], per_case_timeout=120).get(1)
+        replay = {"module": b.text, "pdu": pdu, "sample": "examples/" + label}
+        if r is None or r.status == "notrun":
+            chk.inconcl("case not run")
+            continue
+        chk.evaluations += 1
+        chk.seen(("real", label))
+        if r.status in ("crash", "hang"):
+            kind2, frame = drv.classify_report(r.stderr)
+            chk.violation({"symptom": r.status, "report": kind2, "frame": frame if not frame.endswith("_constraint") else "X_constraint"},
+                          "asn_check_constraints: %s (%s in %s) on the shipped sample %s" % (r.status, kind2, frame, label), dict(replay, stderr=r.stderr[-2000:]))
+            continue
+        if r.events[0].get("rc") != "OK":
+            chk.inconcl("shipped sample %s not decoded (C03)" % label)
+            continue
+        rcs = [e.get("rc") for e in r.events[1:4]]
+        if rcs[0] != "0":
+            msg = drv.unhex(r.events[1].get("msg")).decode("latin-1") if r.events[1].get("msg") not in (None, "-") else ""
+            chk.violation({"symptom": "rejected-valid", "kind": "real", "sample": label},
+                          "asn_check_constraints rejects the shipped sample %s (%s): %s" % (label, pdu, msg[:120]), replay)
+        elif len(set(rcs)) != 1:
+            chk.violation({"symptom": "verdict-depends-on-errbuf", "kind": "real", "sample": label},
+                          "asn_check_constraints verdict on the shipped sample %s changes with the error buffer: %s" % (label, rcs), replay)
+        else:
+            chk.count("real_samples_accepted")
+
+
 def run(tier, seed):
     chk = core.Check("C08", tier, seed)
     quick = tier == "quick"
@@ -305,6 +344,7 @@ def run(tier, seed):
     chk.assumptions = ["extensible constraints, WITH COMPONENTS, PATTERN, CONTAINING, user-defined constraints are not generated",
                        "-fno-constraints builds are excluded"]
     tc = build.toolchain()
+    real_round(chk, tc, quick)
     nmod = int(os.environ.get("VERIF_NMOD", 4 if quick else 40))
     prof = gen.profile(max_len=12, extensible=False, ext_additions=False, set_type=True)
     # extension markers on constructed types are fine (only constraints must be non-extensible)
